@@ -32,7 +32,7 @@ func NewDeviatingModule(set *ymodel.Set, name string) *ymodel.Module {
 // validDeviates draws 1-3 deviate statements that are applicable, in
 // sequence, to the node as it currently is (the node is updated through the
 // reference as we go by the caller).
-func drawDeviate(t *rapid.T, x *yref.XNode, mark func() string, allowNotSupported bool) *ymodel.Deviate {
+func drawDeviate(t *rapid.T, x *yref.XNode, mark func() string, allowNotSupported, inOp bool) *ymodel.Deviate {
 	type opt struct {
 		name string
 		mk   func() *ymodel.Deviate
@@ -50,7 +50,9 @@ func drawDeviate(t *rapid.T, x *yref.XNode, mark func() string, allowNotSupporte
 			add("delete-default", func() *ymodel.Deviate { return &ymodel.Deviate{Kind: "delete", Default: sp(x.Default[0])} })
 		}
 		if x.Mandatory == nil {
-			add("add-mandatory", func() *ymodel.Deviate { return &ymodel.Deviate{Kind: "add", Mandatory: bpp(rapid.Bool().Draw(t, "mand"))} })
+			add("add-mandatory", func() *ymodel.Deviate {
+				return &ymodel.Deviate{Kind: "add", Mandatory: bpp(rapid.Bool().Draw(t, "mand"))}
+			})
 		} else {
 			add("replace-mandatory", func() *ymodel.Deviate { return &ymodel.Deviate{Kind: "replace", Mandatory: bpp(!*x.Mandatory)} })
 			add("delete-mandatory", func() *ymodel.Deviate { return &ymodel.Deviate{Kind: "delete", Mandatory: bpp(*x.Mandatory)} })
@@ -74,13 +76,17 @@ func drawDeviate(t *rapid.T, x *yref.XNode, mark func() string, allowNotSupporte
 	}
 	if isLL || isList {
 		if x.Min == 0 {
-			add("add-min", func() *ymodel.Deviate { return &ymodel.Deviate{Kind: "add", Min: fmt.Sprint(1 + rapid.IntRange(0, 3).Draw(t, "minv"))} })
+			add("add-min", func() *ymodel.Deviate {
+				return &ymodel.Deviate{Kind: "add", Min: fmt.Sprint(1 + rapid.IntRange(0, 3).Draw(t, "minv"))}
+			})
 		} else {
 			add("replace-min", func() *ymodel.Deviate { return &ymodel.Deviate{Kind: "replace", Min: fmt.Sprint(x.Min + 1)} })
 			add("delete-min", func() *ymodel.Deviate { return &ymodel.Deviate{Kind: "delete", Min: fmt.Sprint(x.Min)} })
 		}
 		if x.Max == ^uint64(0) {
-			add("add-max", func() *ymodel.Deviate { return &ymodel.Deviate{Kind: "add", Max: fmt.Sprint(200 + rapid.IntRange(0, 9).Draw(t, "maxv"))} })
+			add("add-max", func() *ymodel.Deviate {
+				return &ymodel.Deviate{Kind: "add", Max: fmt.Sprint(200 + rapid.IntRange(0, 9).Draw(t, "maxv"))}
+			})
 		} else {
 			add("replace-max", func() *ymodel.Deviate { return &ymodel.Deviate{Kind: "replace", Max: fmt.Sprint(x.Max + 7)} })
 			add("delete-max", func() *ymodel.Deviate { return &ymodel.Deviate{Kind: "delete", Max: fmt.Sprint(x.Max)} })
@@ -88,6 +94,9 @@ func drawDeviate(t *rapid.T, x *yref.XNode, mark func() string, allowNotSupporte
 	}
 	switch x.Kind {
 	case ymodel.KLeaf, ymodel.KLeafList, ymodel.KList, ymodel.KContainer, ymodel.KChoice:
+		if inOp {
+			break // config has no meaning below rpc, action and notification
+		}
 		if x.Config == nil {
 			add("add-config", func() *ymodel.Deviate { return &ymodel.Deviate{Kind: "add", Config: bpp(false)} })
 		} else {
@@ -114,6 +123,7 @@ type DevOpts struct {
 	// Taken: node paths already deviated by an earlier module with a given
 	// property, so that two modules never touch the same property of a node
 	NotSupported bool
+	Operations   bool // also deviate rpc/action/notification, their input/output and what lies below, cases, anydata/anyxml
 }
 
 // AddDeviations adds deviating modules with applicable deviations and
@@ -129,7 +139,7 @@ func AddDeviations(t *rapid.T, set *ymodel.Set, o DevOpts) map[string]int {
 		}
 		return fmt.Sprintf("dv%d", mk)
 	}
-	devPaths := map[string][]string{}             // deviating module -> target paths
+	devPaths := map[string][]string{}            // deviating module -> target paths
 	touched := map[*yref.XNode]map[string]bool{} // node -> deviating modules that deviate it
 	othersTouch := func(x *yref.XNode, self string) bool {
 		for m := range touched[x] {
@@ -180,11 +190,15 @@ func AddDeviations(t *rapid.T, set *ymodel.Set, o DevOpts) map[string]int {
 		for i := 0; i < n; i++ {
 			var cands []Target
 			for _, tg := range Targets(set, trees, d) {
-				if tg.Node.Kind == ymodel.KInput || tg.Node.Kind == ymodel.KOutput || tg.Node.Kind == ymodel.KRPC || tg.Node.Kind == ymodel.KAction || tg.Node.Kind == ymodel.KNotification || tg.Node.Kind == ymodel.KCase || tg.Node.Kind == ymodel.KAnydata || tg.Node.Kind == ymodel.KAnyxml {
-					continue
+				switch tg.Node.Kind {
+				case ymodel.KInput, ymodel.KOutput, ymodel.KRPC, ymodel.KAction, ymodel.KNotification, ymodel.KCase, ymodel.KAnydata, ymodel.KAnyxml:
+					// nothing to change on these; they can be removed (an unwritten input/output cannot be named)
+					if !o.NotSupported || !o.Operations || r.ResolvePath(trees, d, tg.Path) != tg.Node {
+						continue
+					}
 				}
-				if tg.InOp {
-					continue // config etc. below operations: keep deviations in the data tree
+				if tg.InOp && !o.Operations {
+					continue
 				}
 				if o.OnlyInUse && tg.Node.CopySteps == 0 {
 					continue
@@ -216,7 +230,7 @@ func AddDeviations(t *rapid.T, set *ymodel.Set, o DevOpts) map[string]int {
 				}
 			}
 			for j := 0; j < k; j++ {
-				dv := drawDeviate(t, tg.Node, mark, o.NotSupported && j == k-1 && removable)
+				dv := drawDeviate(t, tg.Node, mark, o.NotSupported && j == k-1 && removable, tg.InOp)
 				if dv == nil {
 					break
 				}
